@@ -1,5 +1,5 @@
 // Kani harness appended to a scratch copy of agdb/src/graph_search/element_search.rs.
-// BOUNDED (5 slots): ElementSearch::search over symbolic slot arrays and a symbolic handler script, against the
+// BOUNDED (3 slots: two elements): ElementSearch::search over symbolic slot arrays and a symbolic handler script, against the
 // C18 statement: every existing (non-free) slot is examined exactly once, in increasing slot order, with its
 // ordinal as distance and with the sign telling node from edge; an element is returned iff the handler selects it
 // (for Continue, Stop and Finish alike); Finish ends the search; a freed slot is never examined or returned.
@@ -32,7 +32,7 @@ mod verif_kani {
     }
 
     #[kani::proof]
-    #[kani::unwind(7)]
+    #[kani::unwind(4)]
     fn c18_element_search_visits_existing_slots_in_order() {
         let f: [i64; N] = kani::any();
         let fm: [i64; N] = kani::any();
